@@ -14,6 +14,7 @@ EXPLANATION = ("C15: NNG_FLAG_NONBLOCK is plumbed to a zero timeout and mapped b
                "raise/clear only write the notification pipe on a state change."
                " Also: a pollable is cleared only under a test of what it stands for (R5) and every locked change of a msgq re-evaluates its descriptors (R6).")
 EXPLANATION += " Round 3: a descriptor is lowered only with every conjunct of its not-ready predicate established, and only for the socket's own context (R7); a zero timeout is never replaced (R8)."
+EXPLANATION += ' Round 6: a descriptor is raised on evidence that is still true -- nothing consumes from its support fields between the evidence and the raise (R11).'
 
 OP_SLOTS = ("nni_proto_sock_ops.sock_send", "nni_proto_sock_ops.sock_recv", "nni_proto_ctx_ops.ctx_send",
             "nni_proto_ctx_ops.ctx_recv")
